@@ -100,6 +100,7 @@ def parseSVal (ws : List String) : Option (SrcVal × List String) :=
   | w :: r =>
     if w == "-" then some (.none, r)
     else if w.startsWith "n" then (uncps (w.drop 1).toString).map (fun s => (.node s, r))
+    else if w.startsWith "t" then (uncps (w.drop 1).toString).map (fun s => (.text s, r))
     else do let (v, r) ← parseVal (ws.length + 2) ws; pure (.val v, r)
 
 def parseAttrs : Nat → List String → Option (SrcNode × List String)
@@ -269,6 +270,32 @@ def parseViews : Nat → List String → Option (List RenderView)
 
 def showStrs (xs : List String) : String := if xs.isEmpty then "none" else joinSp (xs.map (fun x => "s" ++ cps x))
 
+
+/-! ### `dirs` stream: the files `Compile.parse` meets, in loop order -/
+
+/-- a file of the layout: written by a run that saved `src` (`W`), or any content -/
+inductive DFile where
+  | saved (src : Src) | raw (f : File B)
+
+def parseDFiles : Nat → List String → Option (List (String × DFile))
+  | 0, _ => none
+  | _, [] => some []
+  | f + 1, "F" :: nw :: "W" :: r => do
+    let name ← uncps nw
+    let (src, r) ← parseSrc r
+    let rest ← parseDFiles f r
+    pure ((name, .saved src) :: rest)
+  | f + 1, "F" :: nw :: r => do
+    let name ← uncps nw
+    let (fl, r) ← parseFile r
+    let rest ← parseDFiles f r
+    pure ((name, .raw fl) :: rest)
+  | _, _ => none
+
+def dfileContent (r : String) : DFile → File B
+  | .saved src => match persist codec r src .missing with | .ok f => f | .error _ => .missing
+  | .raw f => f
+
 def handle (ws : List String) : String :=
   match ws with
   | "persist" :: rw :: r => (do
@@ -334,6 +361,20 @@ def handle (ws : List String) : String :=
       -- model: the node through the whole sequence; spec: every render on its own
       pure (showStrs (renderUrls ov (id.getD "") views) ++ "\t" ++
         showStrs (views.map (fun v => (renderUrls ov (id.getD "") [v]).headD "")))).getD "bad-request"
+  | "dirs" :: rw :: jw :: r => (do
+      let rn ← uncps rw
+      let job ← uncps jw
+      let dfs : List (String × DFile) ← parseDFiles (r.length + 2) r
+      let files := dfs.map (fun (nf : String × DFile) => (nf.1, dfileContent rn nf.2))
+      let others := dfs.filter (fun (nf : String × DFile) => nf.1 != job)
+      -- spec: every label of every saved file that is not the job's own is there, with its data
+      let want : List (Key × Val) := others.flatMap (fun (nf : String × DFile) => match nf.2 with
+        | .saved src => if srcWFb src then (match expectLabels src with | .dict kvs => kvs | _ => []) else []
+        | .raw _ => [])
+      let allowed := others.flatMap (fun (nf : String × DFile) => match nf.2 with
+        | .saved src => srcKeys src
+        | .raw f => sectionKeys rn f)
+      pure (labelsStr (parseRestores codec rn job files []) ++ "\t" ++ showVal (.dict want) ++ "\t" ++ showKeys allowed)).getD "bad-request"
   | _ => "bad-op"
 
 end PlasVerif.Driver.C20
